@@ -106,7 +106,10 @@ func VerifH_C19_gelfEnvelopes() {
 	batch := pipeline.NewPreparedBatch(events)
 	pipeline.VerifBatchMarkIterable(batch, iterable)
 	var wd pipeline.WorkerData
-	err := p.out(&wd, batch)
+	var err error
+	// several workers run out() on the one plugin object at once: whatever it writes must be per worker (WorkerData)
+	sharedWrites := vf.SharedWrites(p, func() { err = p.out(&wd, batch) })
+	vf.Assert(sharedWrites == 0, "out-does-not-write-to-the-plugin-shared-by-the-workers")
 	if retry {
 		vf.Assert(err != nil, "failed-send-is-reported")
 		err = p.out(&wd, batch) // what RetriableBatcher does
